@@ -16,13 +16,16 @@ const WIT: &str = r#"package verif:pay;
 
 interface t {
   record rec { a: u32, b: string, c: list<u8> }
+  resource thing { constructor(a: u32); }
 }
 
 world w {
-  use t.{rec};
+  use t.{rec, thing};
   import s-str: func(s: stream<string>) -> future<string>;
   import s-bytes: func(s: stream<list<u8>>) -> future<list<u8>>;
   import s-rec: func(s: stream<rec>) -> future<rec>;
+  import s-tup: func(s: stream<tuple<u16, u64, u8>>) -> future<tuple<u16, u64, u8>>;
+  import s-thing: func(s: stream<thing>) -> future<thing>;
 }
 "#;
 
@@ -116,6 +119,10 @@ fn main() {
                         (16, 8)
                     } else if p.ends_with("Rec") {
                         (40, 8)
+                    } else if p.contains("u16,u64,u8") {
+                        (24, 8)
+                    } else if p.ends_with("Thing") {
+                        (4, 4)
                     } else {
                         panic!("simrt: unexpected payload type {p}")
                     };
@@ -140,8 +147,8 @@ fn main() {
     }
     let mut lf = LayoutFix(0);
     lf.visit_file_mut(&mut file);
-    if lf.0 != 6 {
-        panic!("simrt: expected 6 payload vtables (3 stream, 3 future), adjusted the layout of {}", lf.0);
+    if lf.0 != 10 {
+        panic!("simrt: expected 10 payload vtables (5 stream, 5 future), adjusted the layout of {}", lf.0);
     }
     let left = dead_shims_left(&file);
     if grw.rewritten == 0 || left > 0 {
